@@ -519,13 +519,43 @@ func checkC06Instance(c *Ctx, r *Rule) {
 	info := gi.Pkg.TypesInfo
 	recv := recvName(gi)
 	lits := litsOfType(info, gi.Body, stmtT, false)
+	// the literal may live in a constructor helper called from getInstance: its field values are read with
+	// the helper's parameters replaced by the arguments of the call
+	subst := map[string]string{}
+	if len(lits) == 0 {
+		for _, call := range callsIn(gi) {
+			fn, _ := typeutil.Callee(info, call).(*types.Func)
+			if fn == nil || fn.Pkg() == nil || fn.Pkg().Path() != pkgGorm {
+				continue
+			}
+			hs := p.SrcOpt(fn)
+			if hs == nil {
+				continue
+			}
+			hl := litsOfType(hs.Pkg.TypesInfo, hs.Body, stmtT, false)
+			sig := fn.Type().(*types.Signature)
+			if len(hl) != 1 || sig.Variadic() || sig.Params().Len() != len(call.Args) {
+				continue
+			}
+			lits = hl
+			for i := 0; i < sig.Params().Len(); i++ {
+				subst[sig.Params().At(i).Name()] = canon(info, call.Args[i])
+			}
+			c.Touch(hs)
+			break
+		}
+	}
 	if len(lits) != 1 {
-		r.Unknown(gi.Name(), "literal", gi.Body.Pos(), "expected exactly one Statement literal in getInstance")
+		r.Bad(gi.Name(), "literal", gi.Body.Pos(), "getInstance (or a constructor it calls) no longer builds the fresh statement from exactly one Statement literal: that ConnPool/Context/SkipHooks are carried over cannot be seen")
 	} else {
 		lit := lits[0]
 		for _, name := range []string{"ConnPool", "Context", "SkipHooks"} {
 			v := compositeField(lit, name)
-			r.Check(v != nil && canon(info, v) == recv+".Statement."+name, gi.Name(), "fresh statement keeps "+name, lit.Pos(), "copied from the parent statement", "getInstance's fresh statement does not take "+name+" from the parent: a chain started from a Session/transaction handle loses it")
+			got := ""
+			if v != nil {
+				got = substIdents(canon(info, v), subst)
+			}
+			r.Check(v != nil && got == recv+".Statement."+name, gi.Name(), "fresh statement keeps "+name, lit.Pos(), "copied from the parent statement", "getInstance's fresh statement does not take "+name+" from the parent: a chain started from a Session/transaction handle loses it")
 		}
 		cl := compositeField(lit, "Clauses")
 		fresh := false
@@ -851,78 +881,7 @@ func checkC06ExecuteReset(c *Ctx, r *Rule) {
 		}
 	}
 
-	// Count: temporary SELECT / ORDER BY changes are paired with deferred restores
-	count := p.MethodDecl(pkgGorm, "DB", "Count")
-	c.Touch(count)
-	{
-		cinfo := count.Pkg.TypesInfo
-		conf := &GuardConfig{Name: "count-defers", Events: func(info *types.Info, n ast.Node) []string {
-			d, ok := n.(*ast.DeferStmt)
-			if !ok {
-				return nil
-			}
-			var out []string
-			// defer delete(X.Clauses, K)
-			if id, ok := d.Call.Fun.(*ast.Ident); ok && id.Name == "delete" && len(d.Call.Args) == 2 && fieldSel(info, d.Call.Args[0], clausesF) {
-				if k, ok := constString(info, d.Call.Args[1]); ok {
-					out = append(out, "restore:"+k)
-				}
-			}
-			// defer func() { X.Clauses[K] = saved }()
-			if lit, ok := d.Call.Fun.(*ast.FuncLit); ok {
-				ast.Inspect(lit.Body, func(x ast.Node) bool {
-					if as, ok := x.(*ast.AssignStmt); ok && len(as.Lhs) == 1 {
-						if ix, ok := as.Lhs[0].(*ast.IndexExpr); ok && fieldSel(info, ix.X, clausesF) {
-							if k, ok := constString(info, ix.Index); ok {
-								out = append(out, "restore:"+k)
-							}
-						}
-					}
-					// ... or func() { delete(X.Clauses, K) }()
-					if ce, ok := x.(*ast.CallExpr); ok {
-						if id, ok := ce.Fun.(*ast.Ident); ok && id.Name == "delete" && len(ce.Args) == 2 && fieldSel(info, ce.Args[0], clausesF) {
-							if k, ok := constString(info, ce.Args[1]); ok {
-								out = append(out, "restore:"+k)
-							}
-						}
-					}
-					return true
-				})
-			}
-			return out
-		}}
-		gs := p.Guards(count, conf)
-		selT := p.Named(pkgClause, "Select")
-		for _, call := range callsIn(count) {
-			fn, _ := typeutil.Callee(cinfo, call).(*types.Func)
-			if fn == addClause && len(call.Args) == 1 {
-				if tv, ok := cinfo.Types[call.Args[0]]; ok && types.Identical(tv.Type, selT) {
-					facts, live := gs.At(call.Pos())
-					r.Check(live && facts.Has(fEvent("restore:SELECT")), count.Name(), "temporary SELECT restored", call.Pos(), "deferred restore registered first", "Count replaces the SELECT clause without a deferred restore: the handle keeps count(*) for later queries")
-				}
-			}
-			if id, ok := call.Fun.(*ast.Ident); ok && id.Name == "delete" && len(call.Args) == 2 && fieldSel(cinfo, call.Args[0], clausesF) {
-				if k, ok := constString(cinfo, call.Args[1]); ok && count.Body.Pos() < call.Pos() {
-					if _, isDefer := enclosingDefer(count, call); isDefer {
-						continue
-					}
-					okr, _ := gs.MustPass(call.Pos(), func(n ast.Node) bool {
-						d, ok := n.(*ast.DeferStmt)
-						if !ok {
-							return false
-						}
-						for _, e := range conf.Events(cinfo, d) {
-							if e == "restore:"+k {
-								return true
-							}
-						}
-						return false
-					})
-					r.Check(okr, count.Name(), "temporary delete of "+k+" restored", call.Pos(), "deferred restore follows on every path", "Count deletes the "+k+" clause without restoring it")
-				}
-			}
-		}
-	}
+	checkCountRestores(c, r)
 
 	// AfterQuery trims the FROM joins before any guard
 	aq := p.FuncDecl(pkgCallbacks, "AfterQuery")
@@ -975,4 +934,92 @@ func enclosingDefer(f *FuncSrc, call *ast.CallExpr) (*ast.DeferStmt, bool) {
 		return true
 	})
 	return found, found != nil
+}
+
+
+// checkCountRestores: Count's temporary SELECT / ORDER BY changes are paired with deferred restores on the
+// statement they were made on (shared by C06.execute-reset and C15.count-restore).
+func checkCountRestores(c *Ctx, r *Rule) {
+	p := c.P
+	stmtT := p.Named(pkgGorm, "Statement")
+	clausesF := p.Field(stmtT, "Clauses")
+	addClause := p.Method(stmtT, "AddClause")
+	// Count: temporary SELECT / ORDER BY changes are paired with deferred restores
+	count := p.MethodDecl(pkgGorm, "DB", "Count")
+	c.Touch(count)
+	{
+		cinfo := count.Pkg.TypesInfo
+		conf := &GuardConfig{Name: "count-defers", Events: func(info *types.Info, n ast.Node) []string {
+			d, ok := n.(*ast.DeferStmt)
+			if !ok {
+				return nil
+			}
+			var out []string
+			// defer delete(X.Clauses, K)
+			if id, ok := d.Call.Fun.(*ast.Ident); ok && id.Name == "delete" && len(d.Call.Args) == 2 && fieldSel(info, d.Call.Args[0], clausesF) {
+				if k, ok := constString(info, d.Call.Args[1]); ok {
+					out = append(out, "restore:"+k, "restore:"+k+"@"+canon(info, d.Call.Args[0]))
+				}
+			}
+			// defer func() { X.Clauses[K] = saved }()
+			if lit, ok := d.Call.Fun.(*ast.FuncLit); ok {
+				ast.Inspect(lit.Body, func(x ast.Node) bool {
+					if as, ok := x.(*ast.AssignStmt); ok && len(as.Lhs) == 1 {
+						if ix, ok := as.Lhs[0].(*ast.IndexExpr); ok && fieldSel(info, ix.X, clausesF) {
+							if k, ok := constString(info, ix.Index); ok {
+								out = append(out, "restore:"+k, "restore:"+k+"@"+canon(info, ix.X))
+							}
+						}
+					}
+					// ... or func() { delete(X.Clauses, K) }()
+					if ce, ok := x.(*ast.CallExpr); ok {
+						if id, ok := ce.Fun.(*ast.Ident); ok && id.Name == "delete" && len(ce.Args) == 2 && fieldSel(info, ce.Args[0], clausesF) {
+							if k, ok := constString(info, ce.Args[1]); ok {
+								out = append(out, "restore:"+k, "restore:"+k+"@"+canon(info, ce.Args[0]))
+							}
+						}
+					}
+					return true
+				})
+			}
+			return out
+		}}
+		gs := p.Guards(count, conf)
+		selT := p.Named(pkgClause, "Select")
+		for _, call := range callsIn(count) {
+			fn, _ := typeutil.Callee(cinfo, call).(*types.Func)
+			if fn == addClause && len(call.Args) == 1 {
+				if tv, ok := cinfo.Types[call.Args[0]]; ok && types.Identical(tv.Type, selT) {
+					facts, live := gs.At(call.Pos())
+					r.Check(live && facts.Has(fEvent("restore:SELECT")), count.Name(), "temporary SELECT restored", call.Pos(), "deferred restore registered first", "Count replaces the SELECT clause without a deferred restore: the handle keeps count(*) for later queries")
+					// ... on the statement the temporary clause is added to
+					if sel, ok := call.Fun.(*ast.SelectorExpr); ok {
+						base := canon(cinfo, sel.X) + ".Clauses"
+						r.Check(live && facts.Has(fEvent("restore:SELECT@"+base)), count.Name(), "temporary SELECT restored on the same statement", call.Pos(), "restore acts on "+base, "the deferred restore of the temporary SELECT clause acts on another statement's clause map than the one count(*) is added to ("+base+"): when the two differ (a Session chain) the statement Count returns keeps `SELECT count(*)` and every reader chained on it counts instead of selecting rows")
+					}
+				}
+			}
+			if id, ok := call.Fun.(*ast.Ident); ok && id.Name == "delete" && len(call.Args) == 2 && fieldSel(cinfo, call.Args[0], clausesF) {
+				if k, ok := constString(cinfo, call.Args[1]); ok && count.Body.Pos() < call.Pos() {
+					if _, isDefer := enclosingDefer(count, call); isDefer {
+						continue
+					}
+					okr, _ := gs.MustPass(call.Pos(), func(n ast.Node) bool {
+						d, ok := n.(*ast.DeferStmt)
+						if !ok {
+							return false
+						}
+						for _, e := range conf.Events(cinfo, d) {
+							if e == "restore:"+k {
+								return true
+							}
+						}
+						return false
+					})
+					r.Check(okr, count.Name(), "temporary delete of "+k+" restored", call.Pos(), "deferred restore follows on every path", "Count deletes the "+k+" clause without restoring it")
+				}
+			}
+		}
+	}
+
 }
